@@ -11,29 +11,33 @@
 (* bytes (mode "out"/"both").                                                 *)
 EXTENDS MCSlicing, StarveDoc
 
-VARIABLES starved,   \* "no" | "in" | "out" | "both"
+VARIABLES nostall,   \* consecutive calls without progress that did not return LZMA_BUF_ERROR
+          starved,   \* "no" | "in" | "out" | "both"
           since,     \* calls made since starvation began
           told       \* LZMA_BUF_ERROR was returned since starvation began
 
-stvars == <<allvars, starved, since, told>>
+stvars == <<allvars, starved, since, told, nostall>>
 
 Entry == CASE Family = "xz" -> "stream_decoder" [] Family = "lzma1" -> "alone_decoder"
            [] Family = "lzip" -> "lzip_decoder" [] Family = "bcj" -> "block_decoder"
 
-StInit == SliceInit /\ starved = "no" /\ since = 0 /\ told = FALSE
+StInit == SliceInit /\ starved = "no" /\ since = 0 /\ told = FALSE /\ nostall = 0
 
 BeginStarve(mode) ==
     /\ starved = "no" /\ phase = "feed" /\ ~done
     /\ starved' = mode /\ since' = 0 /\ told' = FALSE
-    /\ UNCHANGED allvars
+    /\ UNCHANGED <<allvars, nostall>>
 
-StFeed(k) == /\ Feed(k) /\ (starved \in {"in", "both"} => k = 0) /\ UNCHANGED <<starved, since, told>>
-StSpace(m) == /\ OutSpace(m) /\ (starved \in {"out", "both"} => m = 0) /\ UNCHANGED <<starved, since, told>>
+StFeed(k) == /\ Feed(k) /\ (starved \in {"in", "both"} => k = 0) /\ UNCHANGED <<starved, since, told, nostall>>
+StSpace(m) == /\ OutSpace(m) /\ (starved \in {"out", "both"} => m = 0) /\ UNCHANGED <<starved, since, told, nostall>>
 StCall == /\ DoCall
           /\ since' = IF starved = "no" THEN 0 ELSE IF since < 9 THEN since + 1 ELSE since   \* saturating
           /\ told' = (told \/ (starved # "no" /\ obs'.ret = "BUF_ERROR"))
+          /\ nostall' = IF obs'.uin = 0 /\ obs'.uout = 0 /\ obs'.ret # "BUF_ERROR" /\ ~done' THEN (IF nostall < 9 THEN nostall + 1 ELSE nostall) ELSE 0
           /\ UNCHANGED starved
 
+\* consecutive calls that neither consumed nor produced anything (whatever they returned, LZMA_BUF_ERROR excepted)
+\* a notification may come once, then progress must resume
 StNext == \/ \E mode \in {"in", "out", "both"} : BeginStarve(mode)
           \/ \E k \in 0..MaxFeed : StFeed(k)
           \/ StFeed(inp.have - fed)
@@ -51,5 +55,6 @@ DocumentedOnly == obs.kind = "call" => obs.ret \in Documented(Entry)
 StarveLive     == (starved # "no") ~> (told \/ done)
 StarveBounded  == (starved = "both" /\ ~told /\ ~done) => since < StarveBound(Entry)
 \* BUF_ERROR is not fatal: the coder can be continued afterwards (sequence unchanged)
+StallBounded   == nostall < StarveBound(Entry)
 BufErrorResumable == told => seq \in {"RUN", "FINISH"}
 =============================================================================
